@@ -161,4 +161,125 @@ theorem gen_compare_frame_rankings_spec (ref est : List Nat) (tr : Bool) (h : re
 
 example : Mir.Gen.hierarchy._compare_frame_rankings [1, 2, 3, 1] [1, 1, 2, 3] true = .ok (3, 5) := by decide +kernel
 
+/-! ### `_gauc` -/
+
+/-- the translated query loop over the frames `k, k+1, …`: it fails where the model's `mapM` of `gaucQuery` fails (same
+    exception), and otherwise accumulates `num_frames` / `score` over the queries with a non-zero normaliser; the division
+    `inversions / float(normalizer)` never raises -/
+theorem _gauc_loop_eq (ref est : Mat) (tr : Bool) (w : Nat) (hlen : ref.length = est.length) :
+    ∀ (m k nf : Nat) (sc : Rat), k + m = ref.length →
+      Mir.Gen.hierarchy._gauc_loop1 ref est tr w ref.length (List.range' k m) nf sc
+        = ((((ref.zip est).drop k).zipIdx k).mapM fun x => gaucQuery ref.length w tr x.2 x.1.1 x.1.2) >>=
+            fun terms => pure (accTerms terms nf sc) := by
+  intro m
+  induction m with
+  | zero =>
+    intro k nf sc hk
+    have : (ref.zip est).drop k = [] := List.drop_eq_nil_of_le (by simp [List.length_zip]; omega)
+    rw [this]
+    simp [Mir.Gen.hierarchy._gauc_loop1, accTerms, pure_eq_ok, ok_bind]
+  | succ m ih =>
+    intro k nf sc hk
+    have hkr : k < ref.length := by omega
+    have hke : k < est.length := by omega
+    have hkz : k < (ref.zip est).length := by simp [List.length_zip]; omega
+    rw [List.range'_succ, List.drop_eq_getElem_cons hkz, List.zipIdx_cons, List.mapM_cons]
+    unfold Mir.Gen.hierarchy._gauc_loop1
+    have hr : rowSlice ref k (slice2 (Int.toNat ((k : Int) - (w : Int))) (Nat.min ref.length (k + w)))
+        = .ok (pySlice ref[k] (k - w) (min ref.length (k + w))) := by
+      unfold rowSlice; rw [List.getElem?_eq_getElem hkr]
+      simp only [getSlice, slice2]; congr 2; omega
+    have he : rowSlice est k (slice2 (Int.toNat ((k : Int) - (w : Int))) (Nat.min ref.length (k + w)))
+        = .ok (pySlice est[k] (k - w) (min ref.length (k + w))) := by
+      unfold rowSlice; rw [List.getElem?_eq_getElem hke]
+      simp only [getSlice, slice2]; congr 2; omega
+    simp only [hr, he, ok_bind, _compare_frame_rankings_eq_model, concat, sliceTo, sliceFrom, List.getElem_zip]
+    have hq : compareFrameRankings
+        (List.take (Nat.min k w) (pySlice ref[k] (k - w) (min ref.length (k + w))) ++
+          List.drop (Nat.min k w + 1) (pySlice ref[k] (k - w) (min ref.length (k + w))))
+        (List.take (Nat.min k w) (pySlice est[k] (k - w) (min ref.length (k + w))) ++
+          List.drop (Nat.min k w + 1) (pySlice est[k] (k - w) (min ref.length (k + w)))) tr
+        = gaucQuery ref.length w tr k ref[k] est[k] := rfl
+    rw [hq]
+    cases hg : gaucQuery ref.length w tr k ref[k] est[k] with
+    | error e => rfl
+    | ok t =>
+      obtain ⟨inv, norm⟩ := t
+      simp only [Except.map, ok_bind]
+      have ihk := ih (k + 1) 
+      by_cases hn : norm = 0
+      · subst hn
+        simp only [Nat.cast_zero, ne_eq, not_true_eq_false, decide_false, Bool.false_eq_true, if_false, pure_eq_ok, ok_bind]
+        rw [ihk nf sc (by omega)]
+        cases hm : (List.mapM (fun x => gaucQuery ref.length w tr x.2 x.1.1 x.1.2)
+            ((List.drop (k + 1) (ref.zip est)).zipIdx (k + 1))) with
+        | error e => rfl
+        | ok terms =>
+          simp only [ok_bind, pure_eq_ok]
+          rw [accTerms_cons_zero _ _ _ _ rfl]
+      · have hnr : ((norm : Nat) : Rat) ≠ 0 := by exact_mod_cast hn
+        simp only [ne_eq, hnr, not_false_eq_true, decide_true, if_true, divF_ne hnr, ok_bind, pure_eq_ok]
+        rw [ihk (nf + 1) (sc + (1 - (inv : Rat) / (norm : Rat))) (by omega)]
+        cases hm : (List.mapM (fun x => gaucQuery ref.length w tr x.2 x.1.1 x.1.2)
+            ((List.drop (k + 1) (ref.zip est)).zipIdx (k + 1))) with
+        | error e => rfl
+        | ok terms =>
+          simp only [ok_bind, pure_eq_ok]
+          rw [accTerms_cons_pos _ _ _ _ (by simpa using hn)]
+
+/-- **`_gauc` as translated = the hand model** (`gauc`) for ALL pairs of matrices (any sizes incl. 0 and 1, different
+    sizes: the same `ValueError`), both `transitive` values, every window (`None`, 0, 1, larger than the track) -/
+theorem _gauc_eq_model (ref est : Mat) (tr : Bool) (window : Option Nat) :
+    Mir.Gen.hierarchy._gauc ref est tr window = gauc ref est tr window := by
+  unfold Mir.Gen.hierarchy._gauc gauc
+  by_cases hlen : ref.length = est.length
+  · have hs : (decide (shape ref ≠ shape est)) = false := by simp [shape, hlen]
+    have key : ∀ w, (Mir.Gen.hierarchy._gauc_loop1 ref est tr w ref.length (List.range ref.length) 0 0 >>= fun x =>
+          (if (decide (x.1 ≠ 0)) then (divF x.2 ((x.1 : Nat) : Rat) >>= fun t => pure t) else pure 0))
+        = match gaucTerms ref est tr w with
+          | .error e => .error e
+          | .ok terms => .ok (gaucScore terms) := by
+      intro w
+      rw [List.range_eq_range', _gauc_loop_eq ref est tr w hlen ref.length 0 0 0 (by omega)]
+      simp only [List.drop_zero, gaucTerms]
+      cases hm : (List.mapM (fun x => gaucQuery ref.length w tr x.2 x.1.1 x.1.2) ((ref.zip est).zipIdx)) with
+      | error e => rfl
+      | ok terms =>
+        simp only [ok_bind, pure_eq_ok, accTerms, gaucScore]
+        generalize List.filter (fun t : Nat × Nat => decide (t.2 ≠ 0)) terms = c
+        by_cases h0 : c.length = 0
+        · simp [h0]
+        · have hr : ((c.length : Nat) : Rat) ≠ 0 := by exact_mod_cast h0
+          simp only [ne_eq, h0, not_false_eq_true, decide_true, if_true, if_false, divF_ne hr, ok_bind, Nat.zero_add,
+            zero_add]
+    simp only [hs, Bool.false_eq_true, if_false]
+    simp only [shape]
+    rw [if_neg (not_not.2 hlen)]
+    cases window with
+    | none => exact key ref.length
+    | some w => exact key w
+  · have hs : (decide (shape ref ≠ shape est)) = true := by simp [shape, hlen]
+    simp only [hs, if_true, throw_eq_error]
+    rw [if_pos hlen]
+
+/-- the C17 headline on the translated kernel: on `n × n` matrices `_gauc` as translated IS the triplet-ranking
+    definition (mean over the query frames with a reference triple of `#correct / #triples`), a score in [0, 1] -/
+theorem gen_gauc_spec (n : Nat) (ref est : Mat) (hr : IsSquare n ref) (he : IsSquare n est)
+    (tr : Bool) (window : Option Nat) :
+    Mir.Gen.hierarchy._gauc ref est tr window = .ok (gaucSpec ref est tr (winOf window n))
+      ∧ 0 ≤ gaucSpec ref est tr (winOf window n) ∧ gaucSpec ref est tr (winOf window n) ≤ 1 := by
+  obtain ⟨s, h1, h2, h3, h4⟩ := Mir.C17.gauc_total n ref est hr he tr window
+  subst h2
+  exact ⟨by rw [_gauc_eq_model, h1], h3, h4⟩
+
+/-- matrices of different sizes are rejected by the translated kernel -/
+theorem gen_gauc_shape_mismatch (ref est : Mat) (tr : Bool) (window : Option Nat) (h : ref.length ≠ est.length) :
+    Mir.Gen.hierarchy._gauc ref est tr window = .error .valueError := by
+  rw [_gauc_eq_model, Mir.C17.gauc_shape_mismatch ref est tr window h]
+
+example : Mir.Gen.hierarchy._gauc [[2, 1, 0], [1, 2, 0], [0, 0, 2]] [[1, 1, 1], [1, 1, 0], [1, 0, 1]] true none = .ok (1 / 2)
+    ∧ Mir.Gen.hierarchy._gauc [[1]] [[1]] true none = .ok 0
+    ∧ Mir.Gen.hierarchy._gauc [[1, 1], [1, 1]] [[1, 1], [1, 1]] false (some 1) = .ok 0 := by
+  refine ⟨by decide +kernel, by decide +kernel, by decide +kernel⟩
+
 end Mir.C17.Gen
